@@ -225,7 +225,8 @@ class Normaliser:
                     s = self._sqrt(base)
                     n = int(e * 2)
                     return s ** n if n > 0 else Rat.const(1) / (s ** (-n))
-                return self._fn("pow", [self._rat(t[2]), self._rat(t[3])])
+                # general power: a ** e == exp(e * log(a)) (a > 0 wherever the repo uses it)
+                return self._fn("exp", [self._rat(t[3]) * self._fn("log", [self._rat(t[2])])])
             return Rat.atom(self.atom_name(t))
         if k == "fn":
             name, args = t[1], t[2]
